@@ -27,6 +27,7 @@ def run(repo, run, tier):
     run.analysed_fn(DS, m.fn)
     callbacks(repo, run, m)
     dt_integrity(repo, run, m)
+    counter_ownership(repo, run)
 
 
 def who_calls(repo, run):
@@ -182,3 +183,30 @@ def dt_integrity(repo, run, m):
     run.judged(rid, "__fix_dt_dir only flips the sign of dt: %s" % sorted(vals), ok=ok)
     if not ok:
         run.report("C20.4", DS, fix, "__fix_dt_dir changes the magnitude of dt (values %s): it runs between a callback and the next step" % sorted(vals), text="__fix_dt_dir values")
+
+
+def counter_ownership(repo, run):
+    rid = run.rule("C20.5", "each OdeSystem owns its counters: a DiffRHS handed to the constructor is copied (copy.copy -> DiffRHS.__copy__ builds a fresh wrapper whose "
+                            "counters start at zero), any other callable is wrapped in a new DiffRHS", floor=3)
+    init = repo.get(DS, "OdeSystem.__init__")
+    run.analysed_fn(DS, init)
+    p = [a.arg for a in init.args.args][1]
+    stores = [st for st in walk_no_nested(init) if isinstance(st, ast.Assign) and any(is_self_attr(t, "equ_rhs") for t in st.targets)]
+    if not stores:
+        raise AnalysisError("anchor missing: stores to self.equ_rhs in OdeSystem.__init__")
+    for st in stores:
+        v = st.value
+        ok = isinstance(v, ast.Call) and (dotted(v.func) in ("copy.copy", "copy.deepcopy", "DiffRHS")) and v.args and src(v.args[0]) == p
+        run.judged(rid, "%s" % src(st), ok=ok)
+        if not ok:
+            run.report("C20.5", DS, st, "the system keeps the caller's right-hand-side object itself (`%s`): evaluation counters, reset() and the hooked Jacobian are then shared with the "
+                                        "caller and with every other system built from the same object, so nfev/njev no longer count the calls made through THIS system" % src(v))
+    cp = repo.get(DS, "DiffRHS.__copy__")
+    run.analysed_fn(DS, cp)
+    news = [c for c in ast.walk(cp) if isinstance(c, ast.Call) and dotted(c.func) == "DiffRHS"]
+    rets = [st for st in cp.body if isinstance(st, ast.Return)]
+    ok = len(news) == 1 and news[0].args and src(news[0].args[0]) == "self.rhs" and len(rets) == 1 and isinstance(rets[0].value, ast.Name) and \
+        not any(isinstance(st, ast.Assign) and isinstance(st.targets[0], ast.Attribute) and st.targets[0].attr in ("nfev", "njev") for st in ast.walk(cp))
+    run.judged(rid, "DiffRHS.__copy__ builds a new DiffRHS around the same function with fresh counters", ok=ok)
+    if not ok:
+        run.report("C20.5", DS, cp, "DiffRHS.__copy__ does not build a fresh wrapper (with counters at zero) around the same function", text="DiffRHS.__copy__")
